@@ -9,6 +9,14 @@ from engine.flow import (dominating_guards, must_pass, path_avoiding, reachable_
 from .common import CALLS, open_mode, open_path_expr
 from .links import check_links
 
+def _is_self(fn, e, at):
+    """the method's own object, or a local copy of it (an inlined helper's parameter)"""
+    if e.id == fn.self_name:
+        return True
+    srcs = value_sources(fn, e, at)
+    return bool(srcs) and all(k == "param" and pl == fn.self_name for k, pl in srcs)
+
+
 META = {
     "explanation": (
         "Round-trip equality itself is value-level and not decided. Decided are the structural necessary "
@@ -416,7 +424,7 @@ def check(ctx):
     for n in g.nodes:
         if n.kind == "call" and any(e[0] == "CODEC" and e[2] == "to_basic" for e in calls.direct(to_tree, n)):
             a = n.ast.args
-            ok = len(a) == 2 and isinstance(a[0], ast.Name) and a[0].id == to_tree.self_name and any(
+            ok = len(a) == 2 and isinstance(a[0], ast.Name) and _is_self(to_tree, a[0], n) and any(
                 k == "expr" and isinstance(pl, ast.Call) and isinstance(pl.func, ast.Attribute) and pl.func.attr == "__getval__"
                 for k, pl in value_sources(to_tree, a[1], n))
             ctx.ob("tree.encoder-args", to_tree, n.ast, ok, "field.to_basic(self, <value held>)" if ok else
@@ -459,7 +467,7 @@ def check(ctx):
                "a Field value can reach _set_value undecoded: %s" % pth(bad), node=svn)
         for dn in dec:
             a = dn.ast.args
-            okd = len(a) == 2 and isinstance(a[0], ast.Name) and a[0].id == lt.self_name and any(
+            okd = len(a) == 2 and isinstance(a[0], ast.Name) and _is_self(lt, a[0], dn) and any(
                 k == "iter" and pl[1] == 1 for k, pl in value_sources(lt, a[1], dn))
             ctx.ob("load.decoder-args", lt, dn.ast, okd, "field.to_python(self, <value from the tree>)" if okd else
                    "the decoder is not called with (this configuration, the tree's value)", node=dn)
